@@ -9,6 +9,7 @@
 #include <memory>
 #include <mutex>
 #include <thread>
+#include <tuple>
 
 #include "scenario.h"
 
@@ -245,6 +246,116 @@ void run(const Json& plan)
         r.violation("C12.once:stage-continuation-count", "first-stage continuation ran " + std::to_string(stage_calls) + " times for " + std::to_string(derived_count) + " derived promises");
     if (reject && stage_calls != 0) r.violation("C12.outcome:stage-ran-on-rejection", "first-stage fulfilment continuation ran on a rejected promise");
 }
+
+// ---- two settling threads feeding one combinator, a third thread attaching ------------------------------------
+Json gen_comb(sim::Rng& rng, int)
+{
+    Json p = Json::object();
+    p["kind"] = rng.chance(0.5) ? "all" : "any";
+    p["reject1"] = rng.chance(0.3);
+    p["reject2"] = rng.chance(0.3);
+    p["prebuilt"] = rng.chance(0.5);
+    p["d1_us"] = rng.chance(0.6) ? 0 : static_cast<int>(rng.below(20));
+    p["d2_us"] = rng.chance(0.6) ? 0 : static_cast<int>(rng.below(20));
+    p["db_us"] = rng.chance(0.6) ? 0 : static_cast<int>(rng.below(20));
+    gen_sched(rng, p, 150);
+    return p;
+}
+
+void run_comb(const Json& plan)
+{
+    sim::Recorder& r = sim::rec();
+    const bool all = plan.str("kind", "all") != "any";
+    const bool rej1 = plan.flag("reject1"), rej2 = plan.flag("reject2"), prebuilt = plan.flag("prebuilt");
+    int V1 = 11, V2 = 22, E1 = 71, E2 = 72;
+    Async::Deferred<int> d1, d2;
+    Async::Promise<int> P1([&](Async::Deferred<int> d) { d1 = std::move(d); });
+    Async::Promise<int> P2([&](Async::Deferred<int> d) { d2 = std::move(d); });
+    struct {
+        int f = 0, rj = 0, a = 0, b = 0, exc = 0;
+    } o;
+    int raised = 0;
+    std::string raised_what;
+    r.probe(all ? "combinator-all" : "combinator-any");
+    if (rej1 || rej2) r.probe("combinator-with-rejection");
+    auto attach_all = [&](Async::Promise<std::tuple<int, int>>& R) {
+        R.then([&o](const std::tuple<int, int>& t) { sim::IgnoreScope ig; o.f++; o.a = std::get<0>(t); o.b = std::get<1>(t); },
+               [&o](std::exception_ptr e) { int t = exc_tag(e); sim::IgnoreScope ig; o.rj++; o.exc = t; });
+    };
+    auto attach_any = [&](Async::Promise<Async::Any>& R) {
+        R.then([&o](const Async::Any& any) { int v = any.cast<int>(); sim::IgnoreScope ig; o.f++; o.a = v; },
+               [&o](std::exception_ptr e) { int t = exc_tag(e); sim::IgnoreScope ig; o.rj++; o.exc = t; });
+    };
+    std::unique_ptr<Async::Promise<std::tuple<int, int>>> RA;
+    std::unique_ptr<Async::Promise<Async::Any>> RY;
+    if (prebuilt) {
+        if (all) RA.reset(new Async::Promise<std::tuple<int, int>>(Async::whenAll(P1, P2)));
+        else RY.reset(new Async::Promise<Async::Any>(Async::whenAny(P1, P2)));
+    }
+    auto settle = [&](Async::Deferred<int>& d, bool rej, int v, int e, i64 delay, const char* name) {
+        return [&, rej, v, e, delay, name]() mutable {
+            sim::set_self_name(name);
+            if (delay > 0) sim::sleep_ns(delay);
+            try {
+                if (rej) d.reject(TestExc(e));
+                else d.resolve(v);
+            } catch (const std::exception& ex) {
+                sim::IgnoreScope ig;
+                raised++;
+                raised_what = ex.what();
+            }
+        };
+    };
+    std::thread S1(settle(d1, rej1, V1, E1, plan.num("d1_us", 0) * 1000, "settler1"));
+    std::thread S2(settle(d2, rej2, V2, E2, plan.num("d2_us", 0) * 1000, "settler2"));
+    std::thread B([&] {
+        sim::set_self_name("attacher");
+        i64 db = plan.num("db_us", 0) * 1000;
+        if (db > 0) sim::sleep_ns(db);
+        try {
+            if (all) {
+                if (prebuilt) attach_all(*RA);
+                else {
+                    auto R = Async::whenAll(P1, P2);
+                    attach_all(R);
+                }
+            } else {
+                if (prebuilt) attach_any(*RY);
+                else {
+                    auto R = Async::whenAny(P1, P2);
+                    attach_any(R);
+                }
+            }
+        } catch (const std::exception& ex) {
+            sim::IgnoreScope ig;
+            raised++;
+            raised_what = std::string("attach: ") + ex.what();
+        }
+    });
+    S1.join();
+    S2.join();
+    B.join();
+    std::string who = std::string(all ? "whenAll" : "whenAny") + " over two promises settled by two threads (" + (rej1 ? "reject" : "fulfil") + ", " + (rej2 ? "reject" : "fulfil") + (prebuilt ? ", combinator pre-built" : ", combinator built by the attacher") + ")";
+    if (raised) r.violation("C12.combinator:outcome-raises", who + ": a settling or attaching party got an exception: " + raised_what);
+    if (o.f + o.rj == 0) r.violation("C12.once:continuation-never-ran:combinator", who + ": neither continuation ran although both inputs were settled");
+    else if (o.f + o.rj > 1) r.violation("C12.once:continuation-ran-twice:combinator", who + ": continuations ran " + std::to_string(o.f) + " + " + std::to_string(o.rj) + " times");
+    else if (all) {
+        if (!rej1 && !rej2) {
+            if (!o.f) r.violation("C12.outcome:rejected-on-fulfilment:combinator", who + ": rejected (tag " + std::to_string(o.exc) + ") although both inputs were fulfilled");
+            else if (o.a != V1 || o.b != V2) r.violation("C12.outcome:wrong-value:combinator", who + ": delivered (" + std::to_string(o.a) + ", " + std::to_string(o.b) + ")");
+        } else {
+            if (o.f) r.violation("C12.outcome:fulfilled-on-rejection:combinator", who + ": fulfilled although an input was rejected");
+            else if (!((rej1 && o.exc == E1) || (rej2 && o.exc == E2))) r.violation("C12.outcome:wrong-exception:combinator", who + ": rejected with tag " + std::to_string(o.exc));
+        }
+    } else {
+        // the first outcome, whichever input it came from
+        bool ok = (o.f && ((!rej1 && o.a == V1) || (!rej2 && o.a == V2))) || (o.rj && ((rej1 && o.exc == E1) || (rej2 && o.exc == E2)));
+        if (!ok) r.violation("C12.outcome:not-an-input-outcome:combinator", who + ": took an outcome that none of its inputs had (value " + std::to_string(o.a) + ", exception tag " + std::to_string(o.exc) + ")");
+    }
+}
+
+Scenario scc { "c12_combinators", "C12", "two threads settle the inputs of whenAll/whenAny while a third attaches to (or builds) the combinator", gen_comb, run_comb };
+Registrar regc(&scc);
 
 Scenario sc { "c12_settle_attach", "C12", "thread A settles a promise while threads B/C attach to it or to a derived promise", gen, run };
 Registrar reg(&sc);
